@@ -273,6 +273,8 @@ def run(ctx: Ctx) -> None:
                 defs = fl.defs_of_use(v.value)
                 if not (defs and all(d.value is not None and _self_attr_call(d.value, cache_attr) is not None for d in defs)):
                     wit.append(f"{fb.loc(r)}: returns `{unparse(v)}` that is not a cache entry")
+            elif isinstance(v, ast.Constant) and v.value is None:
+                pass
             elif v not in deleg:
                 wit.append(f"{fb.loc(r)}: returns `{unparse(v, 50)}`")
         if wit:
